@@ -109,10 +109,11 @@ static void run_activity(Act* a)
     a->act = e;
     e->start();
   } else if (a->kind == 'C') {
-    auto c = sg4::Comm::sendto_init(sg4::Host::by_name(a->a), sg4::Host::by_name(a->b));
-    c->set_payload_size((uint64_t)a->amount);
+    auto c = sg4::Comm::sendto_init();
     if (a->p1 > 0)
       c->set_rate(a->p1);
+    c->set_source(sg4::Host::by_name(a->a))->set_destination(sg4::Host::by_name(a->b));
+    c->set_payload_size((uint64_t)a->amount);
     a->act = c;
     c->start();
   } else {
